@@ -17,7 +17,8 @@ if [ $BUILD -eq 0 ]; then ctest --test-dir $S/pb -j6 --timeout 900 -E testserial
 R="$R,\"build_ok\":$([ $BUILD -eq 0 ] && echo true || echo false),\"ctest_with_change\":\"$TESTS\""
 # (3) demonstration against a clean and a patched static library (plain g++ build of the library sources, no hooks)
 libsrc() { ls $1/{dataio,iogateway,message,reflector,regex,syslog,system,util,zlib}/*.cpp | grep -v "SSL\|ZipFileUtilityFunctions"; }
-DEFS=""; grep -q MUSCLE_VERIF_HOOKS "$SD/demo.cpp" 2>/dev/null && DEFS="-DMUSCLE_VERIF_HOOKS"    # a demonstration may use the library's own (guarded) hooks to park a thread in a window
+DEFS=""; grep -q MUSCLE_VERIF_HOOKS "$SD/demo.cpp" 2>/dev/null && DEFS="-DMUSCLE_VERIF_HOOKS"
+grep -q "fsanitize=address" "$SD/demo.cpp" 2>/dev/null && DEFS="$DEFS -fsanitize=address -g"      # a demonstration that needs ASan to show a one-byte overrun says so in its header    # a demonstration may use the library's own (guarded) hooks to park a thread in a window
 buildlib() { mkdir -p $2; ( cd $2 && for f in $(libsrc $1); do echo $f; done | xargs -P 8 -I{} sh -c 'g++ -std=c++11 -O1 -w -I'$1' -DMUSCLE_ENABLE_ZLIB_ENCODING '$DEFS' -c {} -o $(echo {} | md5sum | cut -c1-12).o' && for f in $1/lang/c/minimessage/MiniMessage.c $1/lang/c/minimessage/MiniMessageGateway.c $1/lang/c/micromessage/MicroMessage.c $1/lang/c/micromessage/MicroMessageGateway.c; do gcc -O1 -w -I$1 -c $f -o c_$(basename $f .c).o; done && ar rcs lib.a *.o ); }
 DEMO_CLEAN="n/a"; DEMO_PATCHED="n/a"
 if [ -f "$SD/demo.cpp" ]; then
